@@ -109,8 +109,10 @@ theorem namesRel_line (ty : Str) (ps : List (Str × Flags)) (ch : Chan) :
 theorem names_line {s : Srv} {b : Bot} (h : AtSrv s b) (name ty : Str) {ps : List (Str × Flags)}
     (hps : MembersOK s ps) {ch : Chan} (hch : aget b.channels (lower name) = some ch) :
     Frame s (lower name) b (b.feed ⟨s.cfg.server, "353".toList, [s.bot, ty, name, joinChar ' ' (ps.map s.namesItem)]⟩).1 ∧
-    ∃ ch', aget (b.feed ⟨s.cfg.server, "353".toList, [s.bot, ty, name, joinChar ' ' (ps.map s.namesItem)]⟩).1.channels (lower name) = some ch' ∧
-      NamesRel ty ps ch ch' := by
+    (∃ ch', aget (b.feed ⟨s.cfg.server, "353".toList, [s.bot, ty, name, joinChar ' ' (ps.map s.namesItem)]⟩).1.channels (lower name) = some ch' ∧
+      NamesRel ty (shownMembers s ps) ch ch') ∧
+    (s.cfg.uhnames = true → ∀ p ∈ ps, ∃ u, aget s.users p.1 = some u ∧
+      aget (b.feed ⟨s.cfg.server, "353".toList, [s.bot, ty, name, joinChar ' ' (ps.map s.namesItem)]⟩).1.n2h p.1 = some u.mask) := by
   obtain ⟨hsv, hne⟩ := h.server
   have hfeed := feed_server (b := b) hsv hne "353".toList [ty, name, joinChar ' ' (ps.map s.namesItem)]
     (by simp only [Bot.ircCmd, cmdOf_353])
@@ -119,14 +121,17 @@ theorem names_line {s : Srv} {b : Bot} (h : AtSrv s b) (name ty : Str) {ps : Lis
     splitWs_joinChar (namesItem_ne_nosp hps).1 (namesItem_ne_nosp hps).2
   have hcn : b.chanOrNew name = ch := by simp only [Bot.chanOrNew, Bot.chan, hch, Option.getD_some]
   have hres : (b.feed ⟨s.cfg.server, "353".toList, [s.bot, ty, name, joinChar ' ' (ps.map s.namesItem)]⟩).1 =
-      { b with channels := aset b.channels (lower name) (secretMark ty (ps.foldl addMember ch)),
+      { b with channels := aset b.channels (lower name) (secretMark ty ((shownMembers s ps).foldl addMember ch)),
                n2h := (ps.map s.namesItem).foldl n2h353 b.n2h } := by
     rw [hfeed]
-    simp only [Bot.stateCmd, cmdOf_353, Bot.do353, hsplit, hcn, foldl_addUser_items h.wf.mp hps, Bot.setChan, secretMark]
+    simp only [Bot.stateCmd, cmdOf_353, Bot.do353, hsplit, hcn, foldl_addUser_items hps, Bot.setChan, secretMark]
   rw [hres]
-  refine ⟨⟨rfl, rfl, rfl, rfl, fun k hk => aget_aset_ne _ _ (Ne.symm hk), ?_⟩, _, aget_aset_self _ _ _, namesRel_line ty ps ch⟩
-  intro x
-  exact foldl_n2h353_items h.wf.mp hps b.n2h x
+  refine ⟨⟨rfl, rfl, rfl, rfl, fun k hk => aget_aset_ne _ _ (Ne.symm hk), ?_⟩,
+    ⟨_, aget_aset_self _ _ _, namesRel_line ty (shownMembers s ps) ch⟩, ?_⟩
+  · intro x
+    exact foldl_n2h353_items hps b.n2h x
+  · intro huh p hp
+    exact foldl_n2h353_sets huh hps b.n2h p hp
 
 /-- a numeric without handler (366, 368, 333, ...) changes nothing -/
 theorem noop_line {s : Srv} {b : Bot} (h : AtSrv s b) (cmd : Str) (rest : List Str) (hk : cmdOf cmd = .other) :
@@ -137,44 +142,64 @@ theorem noop_line {s : Srv} {b : Bot} (h : AtSrv s b) (cmd : Str) (rest : List S
   rw [hfeed]
   simp only [Bot.stateCmd, hk]
 
+theorem shownMembers_append (s : Srv) (ps qs : List (Str × Flags)) :
+    shownMembers s (ps ++ qs) = shownMembers s ps ++ shownMembers s qs := by simp [shownMembers]
+
+/-- a recorded hostmask that is right stays right within a frame -/
+theorem Frame.keeps {s : Srv} {key : Str} {b b' : Bot} (hf : Frame s key b b') {x : Str} {u : SUser}
+    (hu : aget s.users x = some u) (h : aget b.n2h x = some u.mask) : aget b'.n2h x = some u.mask := by
+  rcases hf.n2h x with e | ⟨u', hu', e⟩
+  · rw [e]; exact h
+  · rw [hu] at hu'; cases hu'; exact e
+
 /-- the NAMES lines for the pieces `pss` of the member list -/
 theorem names_lines {s : Srv} (name ty : Str) (pss : List (List (Str × Flags))) :
     ∀ {b : Bot} {ch : Chan}, AtSrv s b → MembersOK s pss.flatten → aget b.channels (lower name) = some ch →
       Frame s (lower name) b (b.recvAll (pss.map (fun ps => emit s.cfg.server "353" [s.bot, ty, name, joinChar ' ' (ps.map s.namesItem)]))) ∧
-      ∃ ch', aget (b.recvAll (pss.map (fun ps => emit s.cfg.server "353" [s.bot, ty, name, joinChar ' ' (ps.map s.namesItem)]))).channels (lower name) = some ch' ∧
-        NamesRel ty pss.flatten ch ch' := by
+      (∃ ch', aget (b.recvAll (pss.map (fun ps => emit s.cfg.server "353" [s.bot, ty, name, joinChar ' ' (ps.map s.namesItem)]))).channels (lower name) = some ch' ∧
+        NamesRel ty (shownMembers s pss.flatten) ch ch') ∧
+      (s.cfg.uhnames = true → ∀ p ∈ pss.flatten, ∃ u, aget s.users p.1 = some u ∧
+        aget (b.recvAll (pss.map (fun ps => emit s.cfg.server "353" [s.bot, ty, name, joinChar ' ' (ps.map s.namesItem)]))).n2h p.1 = some u.mask) := by
   induction pss with
-  | nil => intro b ch _ _ hch; exact ⟨Frame.refl _ _ _, ch, hch, NamesRel.nil ty ch⟩
+  | nil => intro b ch _ _ hch; exact ⟨Frame.refl _ _ _, ⟨ch, hch, NamesRel.nil ty ch⟩, fun _ p hp => by simp at hp⟩
   | cons ps pss ih =>
     intro b ch h hm hch
     simp only [List.map_cons, recvAll_cons, recv_emit, List.flatten_cons]
     have hm1 : MembersOK s ps := hm.sub (fun p hp => by rw [List.flatten_cons]; exact List.mem_append_left _ hp)
     have hm2 : MembersOK s pss.flatten := hm.sub (fun p hp => by rw [List.flatten_cons]; exact List.mem_append_right _ hp)
-    obtain ⟨hf1, ch1, hch1, hr1⟩ := names_line h name ty hm1 hch
-    obtain ⟨hf2, ch2, hch2, hr2⟩ := ih (h.frame hf1) hm2 hch1
-    exact ⟨hf1.trans hf2, ch2, hch2, hr1.append hr2⟩
+    obtain ⟨hf1, ⟨ch1, hch1, hr1⟩, hn1⟩ := names_line h name ty hm1 hch
+    obtain ⟨hf2, ⟨ch2, hch2, hr2⟩, hn2⟩ := ih (h.frame hf1) hm2 hch1
+    refine ⟨hf1.trans hf2, ⟨ch2, hch2, by rw [shownMembers_append]; exact hr1.append hr2⟩, ?_⟩
+    intro huh p hp
+    rcases List.mem_append.mp hp with hp | hp
+    · obtain ⟨u, hu, hn⟩ := hn1 huh p hp
+      exact ⟨u, hu, hf2.keeps hu hn⟩
+    · exact hn2 huh p hp
 
 /-- the whole reply to NAMES -/
 theorem names_reply {s : Srv} {b : Bot} (h : AtSrv s b) {k : Str} {sc : SChan} (hsc : aget s.chans k = some sc) {ch : Chan}
     (hch : aget b.channels k = some ch) :
     Frame s k b (b.recvAll (s.namesReply sc)) ∧
-    ∃ ch', aget (b.recvAll (s.namesReply sc)).channels k = some ch' ∧
-      NamesRel (if (aget sc.modes 's').isSome then ['@'] else if (aget sc.modes 'p').isSome then ['*'] else ['=']) sc.members ch ch' := by
+    (∃ ch', aget (b.recvAll (s.namesReply sc)).channels k = some ch' ∧
+      NamesRel (if (aget sc.modes 's').isSome then ['@'] else if (aget sc.modes 'p').isSome then ['*'] else ['='])
+        (shownMembers s sc.members) ch ch') ∧
+    (s.cfg.uhnames = true → ∀ p ∈ sc.members, ∃ u, aget s.users p.1 = some u ∧
+      aget (b.recvAll (s.namesReply sc)).n2h p.1 = some u.mask) := by
   have hkey := (h.wf.chans k sc hsc).key
   subst hkey
   unfold Srv.namesReply
   simp only [recvAll_append, chunks_map, List.map_map]
   have hm : MembersOK s (chunks s.cfg.namesPerLine sc.members).flatten := by
     rw [chunks_flatten]; exact membersOK_of_wf h.wf hsc
-  obtain ⟨hf, ch', hch', hr⟩ := names_lines (s := s) sc.name
+  obtain ⟨hf, ⟨ch', hch', hr⟩, hn⟩ := names_lines (s := s) sc.name
     (if (aget sc.modes 's').isSome then ['@'] else if (aget sc.modes 'p').isSome then ['*'] else ['='])
     (chunks s.cfg.namesPerLine sc.members) h hm hch
-  rw [chunks_flatten] at hr
+  rw [chunks_flatten] at hr hn
   have hnoop := noop_line (h.frame hf) "366".toList [sc.name, "End of /NAMES list.".toList] cmdOf_366
   simp only [recvAll_cons, recv_emit, recvAll_nil]
   have e : ((fun items => emit s.cfg.server "353" [s.bot, (if (aget sc.modes 's').isSome then ['@'] else if (aget sc.modes 'p').isSome then ['*'] else ['=']), sc.name, joinChar ' ' items]) ∘ List.map s.namesItem) =
       (fun ps => emit s.cfg.server "353" [s.bot, (if (aget sc.modes 's').isSome then ['@'] else if (aget sc.modes 'p').isSome then ['*'] else ['=']), sc.name, joinChar ' ' (ps.map s.namesItem)]) := rfl
   rw [e, hnoop]
-  exact ⟨hf, ch', hch', hr⟩
+  exact ⟨hf, ⟨ch', hch', hr⟩, hn⟩
 
 end C10
